@@ -28,6 +28,10 @@ OutPos(g, nm) == g.outs[CHOOSE q \in DOMAIN g.outs : g.outs[q].name = nm].node
 Has(rec, f) == f \in DOMAIN rec
 Flag(rec, f) == Has(rec, f) /\ rec[f]
 
+\* equality up to the exact / residue encoding (used for the NumPy oracle only)
+SameMod(u, v) == /\ Len(u) = Len(v)
+                 /\ \A j \in 1..Len(u) : u[j] < POISON /\ ToD(u[j]) = ToD(v[j])
+
 EqClause(rec) ==
   LET a == rec.a b == rec.b nocast == Flag(rec, "nocast")
       names == OutNames(a)
@@ -48,7 +52,7 @@ EqClause(rec) ==
                 ELSE IF \E nm \in names : ~NoPoison(vb[OutPos(b, nm)]) THEN "poison_b"
                 ELSE IF \E nm \in names : va[OutPos(a, nm)] # vb[OutPos(b, nm)] THEN "value"
                 ELSE IF Has(rec, "expect") /\
-                        \E nm \in names : va[OutPos(a, nm)] # rec.expect[k][nm]
+                        \E nm \in names : ~SameMod(va[OutPos(a, nm)], rec.expect[k][nm])
                      THEN "oracle"
                 ELSE "ok"
            RECURSIVE First(_)
